@@ -114,6 +114,15 @@ def _fn_case(case):
         case.nontrivial(p["iseed"])
     freq2, v2 = FSC(b, a, dfreq)
     case.check(np.allclose(v, v2, atol=1e-5, equal_nan=True), "FSC not symmetric in its inputs")
+    # inputs of different dtypes (a raw integer map against a float map): each is used as it is
+    for idt in ("int16", "uint8"):
+        ai = np.clip(np.round(a * 20 + 100), 0, 250).astype(idt)
+        bf = (b * np.float32(0.01)).astype(np.float32)     # |b| < 1: truncation to integers would blank it
+        fi, vi = FSC(ai, bf, dfreq)
+        _compare(case, fi, vi, ai.astype(np.float64), bf, dfreq, f"fourier_shell_correlation({idt}, float32)")
+        fj, vj = FSC(bf, ai, dfreq)
+        case.check(np.allclose(vi, vj, atol=1e-5, equal_nan=True), "FSC of an integer and a float image is not symmetric",
+                   None, dtype=idt)
     g = float(rng.choice([1e-3, 0.5, 7.0, 1e3]))
     _, v3 = FSC(a * np.float32(g), b, dfreq)
     case.check(np.allclose(v, v3, atol=2e-4, equal_nan=True), "FSC changed by positive rescaling", gain=g,
